@@ -28,6 +28,13 @@ def obligations(tier):
                 obs.append(r)
             else:
                 obs.extend(position_slices(r, "req_at", 7))
+    # late reports whose retry condition cannot be evaluated (it must not be evaluated once the workflow is terminal)
+    o = ob("C04", "e2c.ctl.D32", "vt.harness.C04:terminal", {"did": "D32", "steps": 5, "control": "either"}, timeout=900)
+    obs.append(o)
+    # ... and the late answer of a pending action to a workflow that has meanwhile been canceled or has failed
+    o = ob("C04", "e2c.a5.D32", "vt.harness.A5:held_actions", {"prop": "C04", "did": "D32", "steps": 6, "control": "cancel", "late_answers": True}, timeout=1200)
+    o["antecedents"] = ["a5_late_answer", "c04_after_terminal"]
+    obs.append(o)
     for did in ("D07", "D07w"):
         o = ob("C04", "e2c.lazy." + did, "vt.harness.C04:terminal", {"did": did, "steps": steps, "lazy_start": 2}, timeout=900)
         o["antecedents"] = ["c04_after_terminal"]
